@@ -34,6 +34,23 @@ def polyline(rng, nseg, box):
 
 def gen_case(rng, idx, tier):
     r = rng.random()
+    if r < 0.12:
+        # constructed near miss: A's last vertex stops d short of an interior point of a segment of B,
+        # 2e-5 <= d <= 5e-4: no meeting point, and every returned pair would be at distance >= d >> 1e-6
+        nb = rng.randint(1, 3)
+        B = polyline(rng, nb, ((-10, 10), (-10, 10)))
+        j = rng.randrange(len(B["P"]) - 1)
+        b0, b1 = B["P"][j], B["P"][j + 1]
+        t = F(rng.randint(2, 8), 10)
+        q = [b0[0] + (b1[0] - b0[0]) * t, b0[1] + (b1[1] - b0[1]) * t]
+        nx, ny = -(b1[1] - b0[1]), (b1[0] - b0[0])
+        L = F(int(100 * float(nx * nx + ny * ny) ** 0.5) + 1, 100)  # a rational bound of |n| from above
+        d = F(rng.randint(2, 50), 100000)
+        sgn = rng.choice([1, -1])
+        end = [q[0] + sgn * nx / L * d * F(101, 100), q[1] + sgn * ny / L * d * F(101, 100)]
+        start = [end[0] + sgn * nx * rng.randint(1, 3), end[1] + sgn * ny * rng.randint(1, 3)]
+        A = {"U": [F(0), F(0), F(1), F(1)], "P": [start, end], "W": None}
+        return {"kind": "polylines", "A": cv.enc_curve(A, "float"), "B": cv.enc_curve(B, "float"), "layout": "near-miss"}
     if r < 0.75:
         na, nb = rng.randint(1, 4), rng.randint(1, 4)
         A = polyline(rng, na, ((-10, 10), (-10, 10)))
@@ -153,7 +170,12 @@ def run_case(case, ctx):
     dup = any(math.dist(p, q) <= 1e-6 for i, p in enumerate(pairs) for q in pairs[i + 1:])
     ctx.check(not dup, f"inter:duplicates:{kind}", f"duplicate pairs returned: {pairs}")
     # completeness
-    if kind == "polylines" and not amb:
+    if kind == "polylines" and case.get("layout") == "near-miss":
+        ctx.count("near_miss")
+        if mind is not None and mind > 1.5e-5 and not expected:
+            ctx.count("expected_empty")
+            ctx.check(len(pairs) == 0, "inter:nonempty-for-disjoint:near-miss", f"curves pass at distance {mind!r} without meeting but {pairs} was returned")
+    elif kind == "polylines" and not amb:
         ctx.count("polyline_exact_sets")
         exp = [(float(t), float(u)) for t, u in expected]
         if not exp:
